@@ -75,6 +75,7 @@ PROPS["C03"] = {
     "contracts": [
         ("contracts.decoder", "xdis.bytecode:get_logical_instruction_at_offset"),
     ],
+    "bounded": [("ground.localsplus", "check")],
     "assumptions": [],
 }
 
@@ -245,7 +246,7 @@ _T = {
  "C02": ("For every opcode table (39 tables, 1.0-3.13 + PyPy) the three operand unpackers are proved equal, for all code byte strings, to CPython's _unpack_opargs of that version family (pointwise: offset, opcode, folded operand incl. EXTENDED_ARG chains; 3.11+ under the stated well-formedness of inline caches); the per-offset decoder's Instruction fields are proved against the same spec, and the stream driver get_instructions_bytes is proved to yield exactly CPython's instruction sequence (offset of the k-th instruction, opcode, globally folded operand) for every table.",
          "pyvc's encoding of the Python subset; spec functions validated against the 9 installed CPythons only for 2.7, 3.6-3.13 (other tables: format documentation, relative to C09); the stream driver get_instructions_bytes is under contract for every table (word code: 3.6+; byte code: 1.0-3.5, where 'the logical instruction at each instruction start ends inside the code' is an assumed well-formedness precondition)."),
  "C03": ("The per-offset decoder get_logical_instruction_at_offset is proved, per opcode table and for all code bytes / operands / table contents, to resolve argval as CPython's dis does for constants, names (incl. 3.11+ LOAD_GLOBAL/LOAD_ATTR/LOAD_SUPER_ATTR shifts), locals/free variables (incl. 3.11+ localsplus and 3.13 paired operands), compare operators (3.12/3.13 shifts) and jump targets.",
-         "co_varnames / cell+free tables bounded to 2 and 1 symbolic names in the proof (constants, names unbounded); localsplus is xdis's reconstruction from (varnames, cellvars+freevars); IndexError on out-of-range table indices is allowed; known finding: cmp_op spelling."),
+         "co_varnames / cell+free tables bounded to 2 and 1 symbolic names in the proof (constants, names unbounded); localsplus is xdis's reconstruction from (varnames, cellvars+freevars), compared with CPython's own table by a bounded differential on 3.11-3.13 programs of every table shape (recorded known finding: a free variable that shares a local's name, 3.12+); IndexError on out-of-range table indices is allowed; known finding: cmp_op spelling."),
  "C04": ("All three label finders are proved, per opcode table and for all code bytes, to return exactly the set of jump targets CPython's dis.findlabels computes (relative/absolute, word scaling from 3.10, backward jumps from 3.11, inline-cache skips in 3.12/3.13); the decoder's jump argval and is_jump_target are proved against the same spec.",
          "lists abstracted to their element sets (only append/membership are used); exception-handler targets added to labels by the decoder are checked only when exception_entries is None in the proof (bounded differential otherwise)."),
  "C05": ("offset2line (binary search) and the co_lnotab branch of findlinestarts are proved for all inputs against CPython's dis.findlinestarts semantics of each version family (unsigned/signed deltas, 3.8 end-of-code cut).",
